@@ -1,4 +1,4 @@
-//@@ unit c01_emit properties=C01,C14,C02 nodegrade
+//@@ unit c01_emit properties=C01,C14,C02,C07 nodegrade
 #![allow(unused_imports, dead_code, unused_variables, unused_mut)]
 use vstd::prelude::*;
 
@@ -173,6 +173,8 @@ impl Session {
             // the stream starts with its start frame and ends with exactly one end frame
             (ret is Some && old(self).stage is Start) ==> (ret->Some_0.kind is SessionStarted || ret->Some_0.kind is SessionEnded),                     // [session_next_event.first_frame_is_start_or_abort]
             (ret is Some && ret->Some_0.kind is SessionEnded) ==> final(self).stage is Done,                                                  // [session_next_event.nothing_after_the_end_frame]
+            old(self).stage is Done ==> ret is None,                                                                                        // [session_next_event.a_finished_session_hands_out_nothing]
+            (ret is Some && final(self).stage is Done) ==> ret->Some_0.kind is SessionEnded,                                                  // [session_next_event.only_the_end_frame_finishes_the_session]
     //@@ end
 }
 
